@@ -72,12 +72,14 @@ CallClauses(ln, o) ==
      <<"BackwardsRejectedCleanly", back => (ln.exc # "" /\ Len(ln.gates) = 0 /\ ln.tgrid /\ ln.t = o.t)>>,
      <<"GatesOnGrid", (ln.exc = "" /\ ~back) => (allok /\ ln.dtgrid)>>,
      <<"LayersComplete", run => GroupsComplete(groups, L, cyc)>>,
-     <<"ProductFormula", run => IsProductFormula(ln.order, ls, o.t, T)>>,
-     <<"ClassSums", run => ClassSums(ls, o.t, T)>>,
+     \* (a chain of two sites has no odd bond: the left sweeps are empty and only the even class can be read back)
+     <<"ProductFormula", run => IF L = 2 THEN SumClass(ls, "R") = CRat(T - o.t) ELSE IsProductFormula(ln.order, ls, o.t, T)>>,
+     <<"ClassSums", run => IF L = 2 THEN SumClass(ls, "R") = CRat(T - o.t) ELSE ClassSums(ls, o.t, T)>>,
      <<"StepsWithinDt", run => StepsWithin(ln.order, ls, StepOf(ln, o))>>,
      <<"Symmetric", run => SymmetricProduct(ln.order, ls)>>,
      <<"TimeExact", (ln.exc = "" /\ ~back) => (ln.tgrid /\ ln.t = T)>>,
      <<"QueueDrained", (ln.exc = "" /\ ~back) => ~ln.queued>>,
+     <<"NOTE:TolStepFormula", (ln.exc = "" /\ ~back /\ ln.tolmode) => (ln.dtgrid /\ ln.dtused = ln.dtwant)>>,
      <<"AtTimesYields", (ln.exc = "" /\ ln.op = "at_times") => ln.yields = SortTs(ln.ts)>>,
      <<"GateIsExpmOfTerm", \A k \in 1..Len(ln.gates) : ln.gates[k].dg = 0>>,
      <<"DenseEqualsProduct", (ln.exc = "" /\ ln.dense) => ln.dq = 0>>,
@@ -96,7 +98,10 @@ OpsOf(s) == [k \in 1..Len(s) |-> [sites |-> s[k].sites, m |-> [e \in 1..Len(s[k]
 
 HamClauses(ln) ==
   << <<"Returns", ln.exc = "">>,
-     <<"TermsOnGrid", ln.exc = "" => ln.ongrid>>,
+     \* (an uneven but sum-preserving sharing of the one-site parts would leave the integer grid: a note, and
+     \*  the quantised numpy relation below still judges the sum)
+     <<"NOTE:TermsOnGrid", ln.exc = "" => ln.ongrid>>,
+     <<"HamSum", ln.exc = "" => ln.dqsum = 0>>,
      \* the terms represent exactly the sum of the supplied one- and two-site operators
      <<"HamSumExact", (ln.exc = "" /\ ln.ongrid) => SameOperator(OpsOf(ln.terms), OpsOf(ln.supplied), ln.n)>>,
      \* one term per pair, stored with the smaller site first
@@ -109,18 +114,34 @@ ConvClauses(ln) ==
         <<"ConvergenceMeasurable", ln.exc = "" => ln.above_floor>>,
         <<"ConvergenceOrder", (ln.exc = "" /\ ln.above_floor) => (ln.r1 >= need /\ ln.r2 >= need)>> >>
 
+\* arbitrary geometry: ln.pairs = the pairs of `terms`; ln.gates = <<layer, index of the pair, p, q>>, the
+\* fraction of the exponent being (p + q s)/2
 TrotClauses(ln) ==
-  LET seq == [k \in 1..Len(ln.sched) |-> <<ln.sched[k][1], ln.sched[k][2], ln.sched[k][3]>>] IN
+  LET G == ln.gates
+      n == Len(G)
+      lay(k) == G[k][1]
+      pr(k) == ln.pairs[G[k][2] + 1]
+      cf(k) == <<G[k][3], G[k][4]>>
+      RECURSIVE Tot(_, _)
+      Tot(w, k) == IF k > n THEN CZero ELSE CAdd(IF G[k][2] = w THEN cf(k) ELSE CZero, Tot(w, k + 1))
+      Layers == {lay(k) : k \in 1..n}
+      LayerOf(x) == [ws |-> {G[k][2] : k \in {j \in 1..n : lay(j) = x}},
+                     cs |-> {cf(k) : k \in {j \in 1..n : lay(j) = x}}]
+      nl == Cardinality(Layers)
+  IN
   << <<"Returns", ln.exc = "">>,
      <<"GatesOnGrid", ln.exc = "" => ln.ongrid>>,
      \* every term is exponentiated for a total fraction of one per step
      <<"TermFractions", (ln.exc = "" /\ ln.ongrid) =>
-          \A k \in 1..Len(ln.totals) : <<ln.totals[k][1], ln.totals[k][2]>> = <<2 * ln.steps, 0>>>>,
-     \* a layer is applied as a whole: each of its pairs once, with one fraction
-     <<"LayersComplete", ln.exc = "" => ln.layers_complete>>,
-     <<"LayersCommute", ln.exc = "" => ln.layers_disjoint>>,
-     \* even orders: the sequence of (layer, fraction) reads the same backwards
-     <<"Symmetric", (ln.exc = "" /\ ln.ongrid /\ ln.order \in {2, 4}) => Palindrome(seq)>>,
+          \A w \in 0..(Len(ln.pairs) - 1) : Tot(w, 1) = <<2 * ln.steps, 0>>>>,
+     \* the gates of one layer act on disjoint sites (they commute) and share one fraction
+     <<"LayersCommute", ln.exc = "" =>
+          \A j, k \in 1..n : (j # k /\ lay(j) = lay(k)) =>
+               {pr(j)[1], pr(j)[2]} \cap {pr(k)[1], pr(k)[2]} = {}>>,
+     <<"LayerUniform", (ln.exc = "" /\ ln.ongrid) => \A x \in Layers : Cardinality(LayerOf(x).cs) = 1>>,
+     \* even orders: the sequence of layers (set of pairs, fraction) reads the same backwards
+     <<"Symmetric", (ln.exc = "" /\ ln.ongrid /\ ln.order \in {2, 4} /\ Layers = 0..(nl - 1)) =>
+          \A x \in Layers : LayerOf(x) = LayerOf(nl - 1 - x)>>,
      <<"GateIsExpmOfTerm", ln.exc = "" => ln.dg = 0>> >>
 
 Clauses(ln, o) ==
